@@ -126,17 +126,19 @@ def c13_uamiv_emis(v, spec):
 
 @pred('C20-no-headroom-saturation')
 def c20_saturation(v, spec):
-    # PAKOUT chooses the exponent from the largest neighbour difference of
-    # the ORIGINAL field; when that difference is just below a power of two
-    # the byte range has no headroom for the half-step reconstruction error
-    # carried along, increments saturate and the error exceeds one step
-    # (observed up to ~1.15 steps).  No wrap-around, checksum and bytes are
-    # right: only the error bound is exceeded, by less than 25 %.
+    # The byte range holds -127..+128 quantisation steps around the previous
+    # RECONSTRUCTED value.  PAKOUT picks the exponent from the largest
+    # neighbour difference of the ORIGINAL field; when that difference is
+    # above ~99 % of 2**NEXP a negative step of that size plus the half-step
+    # error carried along needs byte -1: it is clipped to 0 and the error
+    # grows to between 1 and ~1.5 steps (no wrap-around; checksum and bytes
+    # agree with the serial PAKOUT reference -- the algorithm itself has no
+    # headroom).  Only the error bound is exceeded.
     pr = v.get('problems') or []
-    return (v['kind'] == 'pack-law-broken:adversarial' and
-            spec.get('kind') == 'adversarial' and len(pr) == 1 and
+    return (v['kind'].startswith('pack-law-broken:') and len(pr) == 1 and
             pr[0].startswith('|unpack(pack(x)) - x|') and
-            v.get('ratio') is not None and v['ratio'] < 1.25)
+            v.get('ratio') is not None and v['ratio'] < 1.6 and
+            v.get('headroom') is not None and v['headroom'] > 0.99)
 
 
 @pred('C20-index-header-length')
